@@ -53,6 +53,20 @@ type Scenario struct {
 	Readers   int      `json:"readers,omitempty"` // tasks issuing Query(*,[*]) a few times
 	Latency   []string `json:"latency,omitempty"`
 	LatPerNs  int64    `json:"lat_period_ns,omitempty"`
+	// Second phase, after the streams are done: lifecycle calls raced on the
+	// same targets - one resetter task per target (Resets[target] calls of
+	// Reset) against one admin task that removes and re-adds targets. These
+	// are the calls the cache itself serialises (Reset holds the cache lock
+	// that Remove and Add take exclusively); updates are not raced against a
+	// Remove of their own target (see DESIGN 5.1).
+	Resets map[string]int `json:"race_resets,omitempty"`
+	Admin  []AdminOp      `json:"race_admin,omitempty"`
+}
+
+// AdminOp is one call of the admin task of the second phase.
+type AdminOp struct {
+	K      string `json:"k"` // remove | add
+	Target string `json:"target"`
 }
 
 type H struct{}
@@ -254,6 +268,17 @@ func (H) Generate(rng *simrt.Rand, prop, tier string) (any, simrt.Config) {
 	if rng.Chance(0.3) {
 		sc.Readers = 1 + rng.Intn(2)
 	}
+	if (prop == "C03" || prop == "C14") && sc.ClockMode == "advancing" && rng.Chance(0.3) {
+		sc.Resets = map[string]int{}
+		for _, tg := range sc.Targets {
+			if rng.Chance(0.8) {
+				sc.Resets[tg] = 1 + rng.Intn(2)
+			}
+		}
+		for i := 1 + rng.Intn(4); i > 0; i-- {
+			sc.Admin = append(sc.Admin, AdminOp{K: []string{"remove", "remove", "add"}[rng.Intn(3)], Target: sc.Targets[rng.Intn(len(sc.Targets))]})
+		}
+	}
 	return sc, cfg
 }
 
@@ -293,6 +318,27 @@ func (H) Shrinks(s any) []any {
 		c := clone()
 		c.Readers = 0
 		out = append(out, c)
+	}
+	if len(sc.Admin) > 0 || len(sc.Resets) > 0 {
+		c := clone()
+		c.Admin, c.Resets = nil, nil
+		out = append(out, c)
+		for i := range sc.Admin {
+			c := clone()
+			c.Admin = append(append([]AdminOp(nil), sc.Admin[:i]...), sc.Admin[i+1:]...)
+			out = append(out, c)
+		}
+		for _, tg := range sc.Targets {
+			if sc.Resets[tg] > 0 {
+				c := clone()
+				c.Resets = map[string]int{}
+				for k, v := range sc.Resets {
+					c.Resets[k] = v
+				}
+				c.Resets[tg]--
+				out = append(out, c)
+			}
+		}
 	}
 	for i, t := range sc.Streams {
 		for sz := len(t) / 2; sz >= 2; sz /= 2 {
@@ -627,6 +673,107 @@ func (H) Execute(x *common.Exec, s any) {
 		return
 	}
 	w.judge(x, final, finalMeta)
+	if len(x.Viol) > 0 || len(sc.Admin) == 0 {
+		return
+	}
+	// ---- second phase: Reset raced against Remove / Add of the same targets
+	for _, tg := range sc.Targets {
+		tg := tg
+		if n := sc.Resets[tg]; n > 0 {
+			x.R.Go("resetter-"+tg, func() {
+				for i := 0; i < n; i++ {
+					w.c.Reset(tg)
+				}
+			})
+		}
+	}
+	x.R.Go("admin", func() {
+		for _, op := range sc.Admin {
+			switch op.K {
+			case "remove":
+				w.c.Remove(op.Target)
+			case "add":
+				if !w.c.HasTarget(op.Target) {
+					w.c.Add(op.Target)
+				}
+			}
+		}
+	})
+	out = x.R.Schedule(false, nil)
+	x.R.AcquireEnd()
+	if out == simrt.StepLimit {
+		x.Inconclusive = "step-limit"
+		return
+	}
+	if out != simrt.AllDone {
+		x.Violate(x.Prop+"/deadlock", "lifecycle calls blocked forever: %s", x.R.Summary())
+		return
+	}
+	final2 := map[string]map[string]leafSnap{}
+	x.R.Go("final2", func() {
+		for _, tg := range sc.Targets {
+			if w.c.HasTarget(tg) {
+				final2[tg], _ = snapshotTarget(w.c, tg)
+			}
+		}
+	})
+	x.R.Schedule(true, nil)
+	x.R.AcquireEnd()
+	w.judgeLifecycleRace(x, final2)
+}
+
+// judgeLifecycleRace: after Reset calls raced against Remove/Add of the same
+// targets, a consumer of the change feed still holds exactly what the cache
+// holds: the data leaves are equal, and no metadata leaf is reported that the
+// cache does not store with that value (metadata created silently by Add may
+// be missing from the feed, so that direction is not demanded).
+func (w *world) judgeLifecycleRace(x *common.Exec, final map[string]map[string]leafSnap) {
+	var all []feedRec
+	for _, f := range w.feeds {
+		all = append(all, f...)
+	}
+	sort.Slice(all, func(i, j int) bool { return all[i].stamp < all[j].stamp })
+	rp := cachemodel.Replay{}
+	for _, fr := range all {
+		rp.Feed(fr.snap)
+	}
+	x.Probe("lifecycle-race-judged")
+	tail := func() string {
+		var sb strings.Builder
+		lo := len(all) - 14
+		if lo < 0 {
+			lo = 0
+		}
+		for _, fr := range all[lo:] {
+			fmt.Fprintf(&sb, "  [%d] task %d: %s\n", fr.stamp, fr.task, compact(fr.snap))
+		}
+		return sb.String()
+	}
+	for _, tg := range w.sc.Targets {
+		x.Oblige(1)
+		snap, known := final[tg]
+		if got, want := rp.String(tg, false), contentOf(snap, false); got != want {
+			msg := fmt.Sprintf("after Reset raced with %v: replaying the change feed gives for target %s (known to the cache: %v)\n%sbut the cache holds\n%slast feed entries:\n%s", w.sc.Admin, tg, known, got, want, tail())
+			x.Violate("C03/replay-mismatch-after-lifecycle-race", "%s", msg)
+			x.Violate("C14/feed-vs-cache-after-lifecycle-race", "%s", msg)
+			return
+		}
+		keys := make([]string, 0, len(rp[tg]))
+		for k := range rp[tg] {
+			if cachemodel.IsMeta(k) {
+				keys = append(keys, k)
+			}
+		}
+		sort.Strings(keys)
+		for _, k := range keys {
+			if ls, ok := snap[k]; !known || !ok || ls.content != rp[tg][k] {
+				msg := fmt.Sprintf("after Reset raced with %v: the change feed says target %s (known to the cache: %v) has %s=%s, the cache stores %q (present=%v)\nlast feed entries:\n%s", w.sc.Admin, tg, known, gen.Show(k), rp[tg][k], ls.content, ok, tail())
+				x.Violate("C03/replay-mismatch-after-lifecycle-race", "%s", msg)
+				x.Violate("C14/feed-vs-cache-after-lifecycle-race", "%s", msg)
+				return
+			}
+		}
+	}
 }
 
 // ---------------------------------------------------------------- judging
